@@ -54,7 +54,7 @@ func checkC14(c *Ctx) {
 	res.Rule = "random config struct types as C11 plus embedded structs, alias tags (dialsalias) on ~40% of the leaves at any depth; per aliased leaf one of neither / primary / alias / both (both on at most one leaf in ~30% of the cases), other leaves set with 45%; " +
 		"each case through env.Source (real environment; also vs the Lean model), an alias-wrapped JSON decoder as ez builds it, flag.Set and pflag.Set; oracle per leaf (primary or alias value, unset, error naming the field). " +
 		"non-trivial: an aliased leaf below the top level or >= 2 aliased leaves; distinct = by type + pattern vector + source"
-	n := c.scale(600, 20000)
+	n := c.scale(1500, 20000)
 	for i := 0; i < n; i++ {
 		g := &envTypeGen{r: r, used: map[string]bool{}, alias: true, embed: r.Chance(40)}
 		T := g.genStruct(1+r.Intn(3), nil, nil)
